@@ -467,18 +467,34 @@ func (rw *rewriter) stmt(s ast.Stmt) (pre []ast.Stmt, repl ast.Stmt) {
 			cc.Body = rw.stmts(cc.Body)
 		}
 	case *ast.SelectStmt:
+		// rewrite bodies first
+		for _, c := range st.Body.List {
+			cc := c.(*ast.CommClause)
+			cc.Body = rw.stmts(cc.Body)
+		}
 		if rw.r.Chan {
+			// Under the scheduler a select with several ready cases must not be left to the
+			// runtime's random choice: vsched.SelectIdx blocks until a case is ready (or takes
+			// default), lets the explorer choose among the ready ones, and the chosen
+			// communication is then executed as an ordinary (non-blocking, because ready)
+			// statement. Unarmed, the original select runs.
+			//   if vsched.Armed() { switch vsched.SelectIdx(hasDefault, cases...) { case i: comm; body ... default: defaultBody } } else { select {...} }
 			hasDefault := "false"
 			var cases []ast.Expr
+			var clauses []ast.Stmt
+			idx := 0
+			supported := true
 			for _, c := range st.Body.List {
 				cc := c.(*ast.CommClause)
 				if cc.Comm == nil {
 					hasDefault = "true"
+					clauses = append(clauses, &ast.CaseClause{List: nil, Body: cc.Body})
 					continue
 				}
 				send, ch := commChan(cc.Comm)
 				if ch == nil {
-					continue
+					supported = false
+					break
 				}
 				sv := "false"
 				if send {
@@ -486,14 +502,33 @@ func (rw *rewriter) stmt(s ast.Stmt) (pre []ast.Stmt, repl ast.Stmt) {
 				}
 				cases = append(cases, &ast.CompositeLit{Type: &ast.SelectorExpr{X: ast.NewIdent("vsched"), Sel: ast.NewIdent("Case")},
 					Elts: []ast.Expr{&ast.KeyValueExpr{Key: ast.NewIdent("Send"), Value: ast.NewIdent(sv)}, &ast.KeyValueExpr{Key: ast.NewIdent("Ch"), Value: ch}}})
+				body := append([]ast.Stmt{cc.Comm}, cc.Body...)
+				// `case x := <-ch:` with x unused in the body is legal in a select but an unused
+				// variable in a switch clause: reference it
+				if as, ok := cc.Comm.(*ast.AssignStmt); ok && as.Tok == token.DEFINE {
+					for _, l := range as.Lhs {
+						if id, ok := l.(*ast.Ident); ok && id.Name != "_" {
+							body = append([]ast.Stmt{cc.Comm, &ast.AssignStmt{Lhs: []ast.Expr{ast.NewIdent("_")}, Tok: token.ASSIGN, Rhs: []ast.Expr{ast.NewIdent(id.Name)}}}, cc.Body...)
+							break
+						}
+					}
+				}
+				clauses = append(clauses, &ast.CaseClause{List: []ast.Expr{&ast.BasicLit{Kind: token.INT, Value: strconv.Itoa(idx)}}, Body: body})
+				idx++
+			}
+			rw.need["vsched"] = true
+			if supported {
+				if hasDefault == "false" {
+					// keeps a select that ends its function a terminating statement
+					clauses = append(clauses, &ast.CaseClause{List: nil, Body: []ast.Stmt{&ast.ExprStmt{X: &ast.CallExpr{Fun: ast.NewIdent("panic"),
+						Args: []ast.Expr{&ast.BasicLit{Kind: token.STRING, Value: strconv.Quote("vsched: SelectIdx returned no case")}}}}}})
+				}
+				args := append([]ast.Expr{ast.NewIdent(hasDefault)}, cases...)
+				sw := &ast.SwitchStmt{Tag: vcall("SelectIdx", args...), Body: &ast.BlockStmt{List: clauses}}
+				return nil, &ast.IfStmt{Cond: vcall("Armed"), Body: &ast.BlockStmt{List: []ast.Stmt{sw}}, Else: &ast.BlockStmt{List: []ast.Stmt{st}}}
 			}
 			args := append([]ast.Expr{ast.NewIdent(hasDefault)}, cases...)
 			pre = append(pre, &ast.ExprStmt{X: vcall("Select", args...)})
-			rw.need["vsched"] = true
-		}
-		for _, c := range st.Body.List {
-			cc := c.(*ast.CommClause)
-			cc.Body = rw.stmts(cc.Body)
 		}
 	case *ast.LabeledStmt:
 		p, r := rw.stmt(st.Stmt)
